@@ -1,6 +1,7 @@
 /-
-  go-apk-version: the comparison (in its token-stream formulation) is a total
-  preorder on all strings: it is the lexicographic order of the token streams
+  go-apk-version: the comparison is a total preorder on all strings: the
+  statement-by-statement transcription (`compareLoop`) equals the scan of the two
+  token streams (`compare`), which is the lexicographic order of the streams
   with elements ordered by (rank of the token type, value).
 -/
 import ClairModel.Lib.OrderC03
@@ -63,5 +64,208 @@ theorem elemCmp_totalPre : TotalPre elemCmp := by
 
 theorem compare_totalPre : TotalPre compare :=
   keyCmp_totalPre (lexCmp_totalPre elemCmp_totalPre) tokens
+
+/-! ### The transcription of `compare` is the scan of the two token streams -/
+
+def terminal (t : Tok) : Prop := t = .tEnd ∨ t = .invalid
+
+instance (t : Tok) : Decidable (terminal t) := by unfold terminal; infer_instance
+
+theorem toks_zero (r : Reader) (t : Tok) : toks 0 r t = [(.invalid, 0)] := rfl
+
+theorem toks_term (f : Nat) (r : Reader) (t : Tok) (h : terminal t) : toks (f + 1) r t = [(t, 0)] := by
+  unfold terminal at h
+  simp [toks, h]
+
+theorem toks_step (f : Nat) (r : Reader) (t : Tok) (h : ¬ terminal t) :
+    toks (f + 1) r t = (t, (getToken r t).1) :: toks f (getToken r t).2.2 (getToken r t).2.1 := by
+  unfold terminal at h
+  simp [toks, h]
+
+theorem val_inj {t u : Tok} (h : t.val = u.val) : t = u := by
+  cases t <;> cases u <;> simp [Tok.val] at h <;> rfl
+
+/-- what the code after the loop computes when the next token types differ -/
+theorem decide_ne (o : LoopOut) (hv : o.av = o.bv) (ht : o.at' ≠ o.bt) :
+    decide' o = elemCmp (o.at', (getToken o.r1 o.at').1) (o.bt, (getToken o.r2 o.bt).1) := by
+  unfold decide' elemCmp
+  simp [hv, ht]
+
+theorem elemCmp_ne_eq {a b : Tok × Int} (h : a.1 ≠ b.1) : elemCmp a b ≠ .eq := by
+  unfold elemCmp
+  simp only [h, if_false]
+  split
+  · simp
+  · split
+    · simp
+    · split
+      · simp
+      · split
+        · simp
+        · next h1 h2 => exact absurd (val_inj (by omega)) h
+
+theorem elemCmp_congr (t u : Tok) (x x' y y' : Int) (htu : t ≠ u)
+    (hx : t = .suffix → x = x') (hy : u = .suffix → y = y') :
+    elemCmp (t, x) (u, y) = elemCmp (t, x') (u, y') := by
+  unfold elemCmp
+  simp only [htu, if_false]
+  by_cases ht : t = .suffix
+  · rw [hx ht]
+    by_cases hu : u = .suffix
+    · rw [hy hu]
+    · simp [hu]
+  · by_cases hu : u = .suffix
+    · rw [hy hu]; simp [ht]
+    · simp [ht, hu]
+
+/-- head value and tail of a token stream -/
+def hV (f : Nat) (r : Reader) (t : Tok) : Int := if f = 0 ∨ terminal t then 0 else (getToken r t).1
+def tl (f : Nat) (r : Reader) (t : Tok) : List (Tok × Int) :=
+  if f = 0 ∨ terminal t then [] else toks (f - 1) (getToken r t).2.2 (getToken r t).2.1
+
+theorem toks_view (f : Nat) (r : Reader) (t : Tok) : toks f r t = (eff f t, hV f r t) :: tl f r t := by
+  cases f with
+  | zero => simp [toks_zero, eff, hV, tl]
+  | succ k =>
+    by_cases h : terminal t
+    · simp [toks_term k r t h, eff, hV, tl, h]
+    · simp [toks_step k r t h, eff, hV, tl, h]
+
+theorem eff_terminal_tl {f : Nat} {r : Reader} {t : Tok} (h : terminal (eff f t)) : tl f r t = [] := by
+  unfold tl
+  cases f with
+  | zero => simp
+  | succ k => simp [eff] at h; simp [h]
+
+theorem eff_suffix {f : Nat} {r : Reader} {t : Tok} (h : eff f t = .suffix) : hV f r t = (getToken r (eff f t)).1 := by
+  cases f with
+  | zero => simp [eff] at h
+  | succ k =>
+    simp only [eff, Nat.succ_ne_zero, if_false] at h ⊢
+    subst h
+    simp [hV, terminal]
+
+theorem cmpLoop_unfold (fa fb : Nat) (r1 r2 : Reader) (at' bt : Tok) (av bv : Int) :
+    cmpLoop fa fb r1 r2 at' bt av bv =
+      if eff fa at' = eff fb bt ∧ ¬ terminal (eff fa at') ∧ av = bv then
+        cmpLoop (fa - 1) (fb - 1) (getToken r1 at').2.2 (getToken r2 bt).2.2
+          (getToken r1 at').2.1 (getToken r2 bt).2.1 (getToken r1 at').1 (getToken r2 bt).1
+      else ⟨r1, r2, eff fa at', eff fb bt, av, bv⟩ := by
+  cases fa with
+  | zero => simp [cmpLoop, eff, terminal]
+  | succ k =>
+    cases fb with
+    | zero =>
+      have : ¬ (at' = Tok.invalid ∧ ¬ terminal at' ∧ av = bv) := by
+        intro h; exact h.2.1 (Or.inr h.1)
+      simp [cmpLoop, eff, this]
+    | succ m =>
+      simp only [cmpLoop, eff, Nat.succ_ne_zero, if_false, terminal, not_or, Nat.add_sub_cancel, ne_eq]
+      by_cases hc : at' = bt ∧ (¬at' = Tok.tEnd ∧ ¬at' = Tok.invalid) ∧ av = bv
+      · simp [hc]
+      · have hc' : ¬ (at' = bt ∧ ¬at' = Tok.tEnd ∧ ¬at' = Tok.invalid ∧ av = bv) := by
+          intro h; exact hc ⟨h.1, ⟨h.2.1, h.2.2.1⟩, h.2.2.2⟩
+        simp [hc, hc']
+
+/-- leaving the loop with equal values -/
+theorem exit_spec (fa fb : Nat) (r1 r2 : Reader) (at' bt : Tok) (v : Int)
+    (h : ¬ (eff fa at' = eff fb bt ∧ ¬ terminal (eff fa at'))) :
+    decide' ⟨r1, r2, eff fa at', eff fb bt, v, v⟩ = lexCmp elemCmp (toks fa r1 at') (toks fb r2 bt) := by
+  rw [toks_view fa r1 at', toks_view fb r2 bt]
+  simp only [lexCmp]
+  by_cases hab : eff fa at' = eff fb bt
+  · -- both terminal
+    have hta : terminal (eff fa at') := by
+      by_cases ht : terminal (eff fa at')
+      · exact ht
+      · exact absurd ⟨hab, ht⟩ h
+    have htb : terminal (eff fb bt) := hab ▸ hta
+    rw [eff_terminal_tl hta, eff_terminal_tl htb]
+    have : elemCmp (eff fa at', hV fa r1 at') (eff fb bt, hV fb r2 bt) = .eq := by
+      unfold elemCmp terminal at *
+      simp [hab, htb]
+    rw [this]
+    simp [lexCmp, Ordering.then, decide', hab]
+  · rw [decide_ne _ rfl hab]
+    simp only []
+    rw [elemCmp_congr _ _ _ (hV fa r1 at') _ (hV fb r2 bt) hab
+      (fun hs => (eff_suffix hs).symm) (fun hs => (eff_suffix hs).symm)]
+    rw [then_of_ne_eq (elemCmp_ne_eq hab)]
+where
+  then_of_ne_eq {x y : Ordering} (h : x ≠ .eq) : x.then y = x := by
+    cases x <;> simp_all [Ordering.then]
+
+theorem valCmp_elem (t : Tok) (x y : Int) (h : ¬ terminal t) :
+    elemCmp (t, x) (t, y) = (if x < y then Ordering.lt else if x > y then .gt else .eq) := by
+  unfold terminal at h
+  unfold elemCmp
+  simp [h]
+
+theorem cmpLoop_spec : ∀ (fa fb : Nat) (r1 r2 : Reader) (at' bt : Tok) (av bv : Int),
+    decide' (cmpLoop fa fb r1 r2 at' bt av bv) =
+      (if av < bv then .lt else if av > bv then .gt
+       else lexCmp elemCmp (toks fa r1 at') (toks fb r2 bt)) := by
+  intro fa
+  induction fa with
+  | zero =>
+    intro fb r1 r2 at' bt av bv
+    rw [cmpLoop_unfold]
+    have hnt : ¬ (eff 0 at' = eff fb bt ∧ ¬ terminal (eff 0 at')) := by
+      intro h; exact h.2 (Or.inr rfl)
+    have hc : ¬ (eff 0 at' = eff fb bt ∧ ¬ terminal (eff 0 at') ∧ av = bv) := fun h => hnt ⟨h.1, h.2.1⟩
+    rw [if_neg hc]
+    by_cases hv : av = bv
+    · subst hv
+      rw [exit_spec 0 fb r1 r2 at' bt av hnt]
+      simp
+    · simp only [decide']
+      by_cases h1 : av < bv
+      · simp [h1]
+      · have h2 : av > bv := by omega
+        simp [h1, h2]
+  | succ k ih =>
+    intro fb r1 r2 at' bt av bv
+    rw [cmpLoop_unfold]
+    by_cases hv : av = bv
+    · subst hv
+      by_cases hc : eff (k + 1) at' = eff fb bt ∧ ¬ terminal (eff (k + 1) at')
+      · -- the loop goes round once more
+        have hc' : eff (k + 1) at' = eff fb bt ∧ ¬ terminal (eff (k + 1) at') ∧ av = av := ⟨hc.1, hc.2, rfl⟩
+        rw [if_pos hc']
+        have hat : eff (k + 1) at' = at' := by simp [eff]
+        rw [hat] at hc
+        -- the other side has fuel left and the same type
+        cases fb with
+        | zero => exact absurd (by rw [hc.1]; exact Or.inr rfl) hc.2
+        | succ m =>
+          have hbt : bt = at' := by simpa [eff] using hc.1.symm
+          subst hbt
+          simp only [Nat.add_sub_cancel]
+          rw [ih m, toks_step k r1 bt hc.2, toks_step m r2 bt hc.2]
+          simp only [lexCmp, valCmp_elem bt _ _ hc.2, Int.lt_irrefl, if_false, gt_iff_lt]
+          by_cases h1 : (getToken r1 bt).1 < (getToken r2 bt).1
+          · simp [h1, Ordering.then]
+          · by_cases h2 : (getToken r2 bt).1 < (getToken r1 bt).1
+            · simp [h1, h2, Ordering.then]
+            · simp [h1, h2, Ordering.then]
+      · have hc' : ¬ (eff (k + 1) at' = eff fb bt ∧ ¬ terminal (eff (k + 1) at') ∧ av = av) :=
+          fun h => hc ⟨h.1, h.2.1⟩
+        rw [if_neg hc', exit_spec (k + 1) fb r1 r2 at' bt av hc]
+        simp
+    · have hc' : ¬ (eff (k + 1) at' = eff fb bt ∧ ¬ terminal (eff (k + 1) at') ∧ av = bv) :=
+        fun h => hv h.2.2
+      rw [if_neg hc']
+      simp only [decide']
+      by_cases h1 : av < bv
+      · simp [h1]
+      · have h2 : av > bv := by omega
+        simp [h1, h2]
+
+/-- The statement-by-statement transcription of `compare` and the scan of
+    the two token streams are the same function. -/
+theorem compareLoop_eq_compare (a b : Str) : compareLoop a b = compare a b := by
+  unfold compareLoop compare tokens
+  rw [cmpLoop_spec]
+  simp
 
 end ClairModel.VerApk
